@@ -72,6 +72,7 @@ def draw_cfg(st):
         "p_ser_raise": [0.0, 0.2][st.choose(2, "p_ser")],
         "p_clock_jump": [0.0, 0.1][st.choose(2, "clockjump")],
         "n_damage": st.choose(7, "n-damage"),
+        "threads_format": st.choose(4, "threads-format") == 3,
     }
     ex = []
     for _ in range(st.choose(3, "n-extractors")):
@@ -168,6 +169,9 @@ def oracle(rc, st):
     # ---- formatting half: every emitted message
     for m in msgs:
         check_formats(PP, m)
+    # ---- formatting from two threads at once (module-level state of the formatters must not mix messages)
+    if len(msgs) >= 2 and rc.cfg.get("threads_format"):
+        format_concurrently(rc, PP, msgs)
     # ---- command-line half
     data, kinds = damage(st, rc.file.os_cache, rc.cfg["n_damage"], rc)
     lines = io.BytesIO(data).readlines()
@@ -255,6 +259,22 @@ def oracle(rc, st):
             if json.loads(o) != want:
                 raise Violation(("filter_output", {"expr": "in_place" if expr != "J" else "identity"}),
                                 "EliotFilter(%r) wrote %r, the expression's value is %r" % (expr, o[:200], want))
+    # a line the filter cannot decode stops it (as before), but everything it processed up to there has
+    # been written: the output is the encoding of every line processed
+    if tlines:
+        k = st.choose(len(tlines) + 1, "bad-line-at")
+        stream_ = tlines[:k] + ["this is not JSON\n"] + tlines[k:]
+        out = io.StringIO()
+        try:
+            EliotFilter("J", stream_, out).run()
+            raise Violation("filter_output", "EliotFilter accepted a non-JSON line silently")
+        except ValueError:
+            pass
+        got = [x for x in out.getvalue().split("\n") if x]
+        if len(got) != k or any(json.loads(o) != json.loads(ln) for o, ln in zip(got, tlines[:k])):
+            raise Violation(("filter_output", {"expr": "before_error"}),
+                            "EliotFilter stopped at input line %d (not JSON) having written %d of the %d lines before it" % (
+                                k, len(got), k))
     elines = [ln for ln, (c, v) in zip(kept, classes) if c == "eliot"]
     out = io.StringIO()
     expr = "SKIP if len(J['task_level']) %% %d == %d else J['task_level']" % (2 + st.choose(2, "mod"), st.choose(2, "rem"))
@@ -269,6 +289,49 @@ def oracle(rc, st):
         raise Violation("filter_skip", "SKIP predicate %r kept %d lines, expected %d" % (
             expr, out.getvalue().count("\n"), len(want)))
     return (kinds, hashlib.blake2b(stream, digest_size=6).hexdigest())
+
+
+def format_concurrently(rc, PP, msgs):
+    from esim.sched import Sched, SimAbort
+    from esim import seams
+    want_p = [PP.pretty_format(m) for m in msgs]
+    want_c = [PP.compact_format(m) for m in msgs]
+    s = Sched(rc.dec.stream("fmt-sched"), p_switch=0.3, gran="line", max_steps=400000, traced=["prettyprint.py"])
+    got = {}
+
+    def worker(name, idxs):
+        def fn():
+            for i in idxs:
+                got[(name, i)] = (PP.pretty_format(msgs[i]), PP.compact_format(msgs[i]))
+        return fn
+
+    def main():
+        half = len(msgs) // 2
+        a = s.spawn("F0", worker("F0", list(range(0, len(msgs)))))
+        b = s.spawn("F1", worker("F1", list(range(len(msgs) - 1, -1, -1))))
+        for t in (a, b):
+            s.yield_point("join")
+            s.join(t)
+
+    try:
+        s.run_main(main)
+    except SimAbort:
+        raise Violation("no_termination", "formatting threads aborted: %s" % s.abort)
+    for a in s.actors:
+        if a.exc is not None:
+            raise Violation(("format_raised", {"fn": "concurrent", "exc": type(a.exc).__name__}), "%r" % (a.exc,))
+    rc.probe("formatted_concurrently")
+    rc.info["fmt_switches"] = s.switches
+    for (name, i), (p, c) in got.items():
+        if p != want_p[i] or c != want_c[i]:
+            raise Violation(("concurrent_format", {"fn": "pretty" if p != want_p[i] else "compact"}),
+                            "formatted from two threads at once, message %d came out as %r, alone as %r" % (
+                                i, (p if p != want_p[i] else c)[:200], (want_p[i] if p != want_p[i] else want_c[i])[:200]))
+    # the formatters must still be right afterwards
+    for i, m in enumerate(msgs):
+        if PP.pretty_format(m) != want_p[i] or PP.compact_format(m) != want_c[i]:
+            raise Violation(("concurrent_format", {"fn": "afterwards"}),
+                            "after concurrent use message %d is formatted differently" % i)
 
 
 def _progress(done, want):
